@@ -247,6 +247,30 @@ def _slice_form(c, fn, st, gname):
     subs = mcmc.burn_thin_slices(fn)
     want_store = st.P if gname == "get_probabilities" else st.S
     problems = []
+    # delegation: a getter may hand burn / thin to another checked getter of the same store and select from what comes back only
+    # along the other axes (`self.get_sample(burn=burn, thin=thin)[:, index]`)
+    if True:
+        rets = [r for r in ast.walk(fn) if isinstance(r, ast.Return) and r.value is not None]
+        if len(rets) == 1:
+            v = rets[0].value
+            while isinstance(v, ast.Call) and U(v.func) in ("array", "asarray") and len(v.args) == 1:
+                v = v.args[0]
+            sel_ok = True
+            if isinstance(v, ast.Subscript):
+                sl0 = v.slice.elts[0] if isinstance(v.slice, ast.Tuple) and v.slice.elts else None
+                sel_ok = isinstance(sl0, ast.Slice) and sl0.lower is None and sl0.upper is None and sl0.step is None
+                v = v.value
+            if isinstance(v, ast.Call) and isinstance(v.func, ast.Attribute) and U(v.func.value) == "self" \
+                    and v.func.attr in ("get_sample", "get_probabilities") and v.func.attr != gname:
+                kws = {k.arg: U(k.value) for k in v.keywords}
+                if (v.func.attr == "get_probabilities") != (gname == "get_probabilities"):
+                    problems.append(f"delegates to {v.func.attr}, a read-out of the other store")
+                if kws.get("burn") != burn or kws.get("thin") != thin or v.args:
+                    problems.append(f"delegates to `{U(v)}` without handing on burn=burn, thin=thin")
+                if not sel_ok:
+                    problems.append("selects along the sample axis after the delegated read-out")
+                return struct_ob("slice-form", qual(c, fn), not problems, "; ".join(problems), rel, fn.lineno,
+                                 slots={"delegates_to": v.func.attr})
     if len(subs) != 1:
         problems.append(f"{len(subs)} sliced subscripts (expected exactly one)")
     else:
@@ -381,7 +405,7 @@ def _parallel(prog, c, fn):
         if isinstance(tn, ast.Call) and U(tn.func) == "sorted" and len(tn.args) == 1:
             tn = tn.args[0]
         distinct = any(pmatch(tn, pt) is not None for pt in (
-            "_p.argsort()", "argsort(_p)", "permutation(_n)[_a:]", "permutation(_n)[:_a]", "_r.permutation(_n)[_a:]", "_r.permutation(_n)[:_a]",
+            "_p.argsort()", "argsort(_p)", "_p.argsort()[_a:]", "argsort(_p)[_a:]", "permutation(_n)[_a:]", "permutation(_n)[:_a]", "_r.permutation(_n)[_a:]", "_r.permutation(_n)[:_a]",
             "choice(_n, size=_k, replace=False)", "choice(_n, _k, False)", "choice(_n, _k, replace=False)", "_r.choice(_n, size=_k, replace=False)",
             "_r.choice(_n, _k, replace=False)", "arange(_n)", "arange(_a, _n)", "sample(range(_n), _k)"))
         if distinct or isinstance(tn, ast.Compare):
@@ -404,8 +428,12 @@ def _parallel(prog, c, fn):
     okc, why = False, ""
     sort_pos = [k for k, t in enumerate(idxs) if t in (f"{names[1]}.argsort()", f"argsort({names[1]})")]
     cut_pos = [k for k, t in enumerate(idxs) if t.endswith(":") and not t.startswith(":")]
-    if sort_pos and cut_pos and sort_pos[0] < cut_pos[0]:
-        cut_txt = idxs[cut_pos[0]][:-1]
+    fused = [pmatch(ast.parse(t, mode="eval").body, pt) for t in idxs for pt in (f"{names[1]}.argsort()[_c:]", f"argsort({names[1]})[_c:]")
+             if not t.endswith(":")]
+    fused = [b_ for b_ in fused if b_ is not None]
+    if (sort_pos and cut_pos and sort_pos[0] < cut_pos[0]) or fused:
+        # (the ascending order and the cut may be one index: P.argsort()[cutoff:])
+        cut_txt = fused[0]["_c"] if fused else idxs[cut_pos[0]][:-1]
         try:
             ct = ast.parse(cut_txt, mode="eval").body
             ab, seen = abstract(ct, [("_p.size", "N"), ("len(_p)", "N"), ("_p.shape[0]", "N")])
